@@ -146,8 +146,9 @@ pub fn worker<P: Property>(tier: Tier, seed: u64, start: u64, step: u64, end: u6
         let _ = writeln!(l, "{s}");
         let _ = l.flush();
     };
-    if start == 0 {
-        for (k, plan) in P::sweeps(tier).iter().enumerate() {
+    {
+        // the systematic sweeps are shared out among the workers like the seeded runs
+        for (k, plan) in P::sweeps(tier).iter().enumerate().filter(|(k, _)| step > 0 && (*k as u64) % step == start % step.max(1) && start < step) {
             let id = -1 - k as i64;
             say(format!("BEGIN {id}"));
             wo.stats.hist = 0;
